@@ -53,6 +53,7 @@ type NodeConf struct {
 	HandoffDepth     int      `json:",omitempty"` // 0 = 1024
 	UDPBufferSize    int      `json:",omitempty"` // 0 = 1400
 	DisableTcpPings  bool     `json:",omitempty"`
+	NoTcpPingsFor    []string `json:",omitempty"` // DisableTcpPingsForNode answers true for these names
 	CIDRs            []string `json:",omitempty"`
 	Meta             []byte   `json:",omitempty"`
 	NoDelegate       bool     `json:",omitempty"`
@@ -147,6 +148,17 @@ func (c NodeConf) Build(ep *simnet.Endpoint, rec *Recorder, logw io.Writer) (*me
 	conf.HandoffQueueDepth = or(c.HandoffDepth, 1024)
 	conf.UDPBufferSize = or(c.UDPBufferSize, 1400)
 	conf.DisableTcpPings = c.DisableTcpPings
+	if len(c.NoTcpPingsFor) > 0 {
+		names := append([]string(nil), c.NoTcpPingsFor...)
+		conf.DisableTcpPingsForNode = func(n string) bool {
+			for _, x := range names {
+				if x == n {
+					return true
+				}
+			}
+			return false
+		}
+	}
 	conf.MsgpackUseNewTimeFormat = c.NewTimeFormat
 	conf.RequireNodeNames = c.RequireNodeNames
 	conf.QueueCheckInterval = time.Hour
